@@ -126,6 +126,14 @@ class odict(dict):
         """
         return tuple()
 
+    def __reduce_ex__(self, protocol):
+        """
+        Pickle protocols 0 and 1 rebuild the object without calling __new__ and skip
+        __setstate__ when the state (the items list) is empty: an empty odict came back
+        without _keys. Always reduce the protocol 2 way (__new__ then __setstate__).
+        """
+        return super(odict, self).__reduce_ex__(max(protocol, 2))
+
     def __getstate__(self):
         """
         return state as items list. need this so pickle works since defined slots
